@@ -34,6 +34,9 @@ Conventions (DESIGN.md §4):
   `fixMistakes`, and `SLASH_SQUEEZE_RE.sub("/", path)` which is the hand-written
   `UrlParts.squeezeSlashes` (the round-trip theorems reason about both); the driver runs the
   generic substitution next to them on every input (three-way comparison with the real `re`).
+* `parse_facebook_url` routes the path of `safe_urlsplit(url)` after
+  `"/".join(part.strip() for part in path.split("/"))` (`stripSegments`: the blanks around each
+  segment are dropped) and the slash squeeze (`squeezePath`).
 -/
 namespace Ural.Facebook
 open Ural.Py Ural
@@ -301,13 +304,13 @@ def firstWithPrefix (sets : List Str) (p : Str) : Option Str := sets.find? fun x
 /-- `y or None` for a `str` -/
 def orNone (y : Str) : Option Str := if y.isEmpty then none else some y
 
-/-- `x = next(...)`; `if x: x = x.split(p, 1)[1] or None` — facebook.py:371-381 -/
+/-- `x = next(...)`; `if x: x = x.split(p, 1)[1] or None` — facebook.py:373-383 -/
 def setId (sets : List Str) (p : Str) : Except Err (Option Str) :=
   match firstWithPrefix sets p with
   | none => .ok none
   | some x => if x.isEmpty then .ok (some x) else (getIdx (splitStr1 x p) 1).map orNone
 
-/-- facebook.py:339-347 -/
+/-- facebook.py:341-349 -/
 def routeWatch (query : Str) : Result :=
   let q := safe_parse_qs query
   if !qsHas q (lit "v") then .ok none
@@ -316,7 +319,7 @@ def routeWatch (query : Str) : Result :=
     let video_id ← getIdx vs 0
     return some (.video video_id none)
 
-/-- facebook.py:349-355 -/
+/-- facebook.py:351-357 -/
 def routeVideos (path : Str) : Result :=
   let parts := pathsplit path
   if parts.length < 3 then .ok none
@@ -325,7 +328,7 @@ def routeVideos (path : Str) : Result :=
     let parent ← getIdx parts 0
     return some (.video id (some parent))
 
-/-- the `set` part of the photo route — facebook.py:367-381 -/
+/-- the `set` part of the photo route — facebook.py:369-383 -/
 def photoSets (q : List (Str × Str)) : Except Err (Option Str × Option Str) :=
   if qsHas q (lit "set") then do
     let sets ← qsItem q (lit "set")
@@ -334,7 +337,7 @@ def photoSets (q : List (Str × Str)) : Except Err (Option Str × Option Str) :=
     return (g, a)
   else return (none, none)
 
-/-- facebook.py:358-383 -/
+/-- facebook.py:360-385 -/
 def routePhotoQuery (query : Str) : Result :=
   let q := safe_parse_qs query
   if !qsHas q (lit "fbid") then .ok none
@@ -344,10 +347,10 @@ def routePhotoQuery (query : Str) : Result :=
     let id ← getIdx fbids 0
     return some (.photo id ga.1 none none ga.2)
 
-/-- `if album_id.startswith("a."): album_id = album_id[2:]` — facebook.py:394-396 -/
+/-- `if album_id.startswith("a."): album_id = album_id[2:]` — facebook.py:396-398 -/
 def albumOf (p2 : Str) : Str := if startsWith p2 (lit "a.") then p2.drop 2 else p2
 
-/-- facebook.py:385-410 -/
+/-- facebook.py:387-412 -/
 def routePhotos (path : Str) : Result :=
   let parts := pathsplit path
   if parts.length < 4 then .ok none
@@ -362,7 +365,7 @@ def routePhotos (path : Str) : Result :=
       if is_facebook_id parent then return some (.photo photo_id none (some parent) none (some album_id))
       else return some (.photo photo_id none none (some parent) (some album_id))
 
-/-- facebook.py:413-434 -/
+/-- facebook.py:415-436 -/
 def routePosts (path : Str) : Result :=
   let parts := pathsplit path
   if parts.length < 3 then .ok none
@@ -380,7 +383,7 @@ def routePosts (path : Str) : Result :=
       if is_facebook_id p0 then return some (.post id (some p0) none none none)
       else return some (.post id none (some p0) none none)
 
-/-- facebook.py:437-447.  `not parent_id or not post_id`: a list held by the dict of
+/-- facebook.py:439-449.  `not parent_id or not post_id`: a list held by the dict of
 `parse_qs` is never empty, `None` is falsy. -/
 def routePermalink (query : Str) : Result :=
   let q := safe_parse_qs query
@@ -393,7 +396,7 @@ def routePermalink (query : Str) : Result :=
       return some (.post id (some pid) none none none)
   | _, _ => .ok none
 
-/-- facebook.py:450-468 -/
+/-- facebook.py:452-470 -/
 def routeGroups (path : Str) : Result :=
   let parts := pathsplit path
   if parts.length < 2 then .ok none
@@ -409,7 +412,7 @@ def routeGroups (path : Str) : Result :=
     if is_facebook_id g then return some (.group (some g) none)
     else return some (.group none (some g))
 
-/-- facebook.py:471-478 -/
+/-- facebook.py:473-480 -/
 def routeProfile (query : Str) : Result :=
   let q := safe_parse_qs query
   match qsGet q (lit "id") with
@@ -420,7 +423,7 @@ def routeProfile (query : Str) : Result :=
       let id ← getIdx user_id 0
       return some (.user id none)
 
-/-- facebook.py:481-488 -/
+/-- facebook.py:483-490 -/
 def routePeople (path : Str) : Result :=
   let parts := pathsplit path
   if parts.length < 3 then .ok none
@@ -428,7 +431,7 @@ def routePeople (path : Str) : Result :=
     let id ← getIdx parts 2
     return some (.user id none)
 
-/-- facebook.py:491-497 (`parts and not parts[0].endswith(".php")`: `and` short-circuits) -/
+/-- facebook.py:493-499 (`parts and not parts[0].endswith(".php")`: `and` short-circuits) -/
 def routeHandle (path : Str) : Result :=
   let parts := pathsplit path
   if parts.isEmpty then .ok none
@@ -436,7 +439,7 @@ def routeHandle (path : Str) : Result :=
     let p0 ← getIdx parts 0
     if !endsWith p0 (lit ".php") then return some (.handle p0) else return none
 
-/-- the routing on the split url — facebook.py:335-497 -/
+/-- the routing on the split url — facebook.py:337-499 -/
 def parseSplit (sp : SplitResult) : Result :=
   let path := sp.path
   if path.isEmpty || path = ['/'] then .ok none
@@ -455,9 +458,15 @@ def parseSplit (sp : SplitResult) : Result :=
   else if startsWith path (lit "/people") then routePeople path
   else routeHandle path
 
-/-- `splitted._replace(path=SLASH_SQUEEZE_RE.sub("/", splitted.path))` — facebook.py:331-333
+/-- `"/".join(part.strip() for part in path.split("/"))` — facebook.py:334: the blanks
+(`str.strip()`: every `str.isspace` character) around each path segment are dropped -/
+def stripSegments (path : Str) : Str := join ['/'] ((splitOn path '/').map strip)
+
+/-- `path = "/".join(part.strip() for part in splitted.path.split("/"))`,
+`splitted._replace(path=SLASH_SQUEEZE_RE.sub("/", path))` — facebook.py:331-335
 (`SLASH_SQUEEZE_RE` is `\/{2,}`: table obligation `patterns_unchanged`) -/
-def squeezePath (sp : SplitResult) : SplitResult := { sp with path := UrlParts.squeezeSlashes sp.path }
+def squeezePath (sp : SplitResult) : SplitResult :=
+  { sp with path := UrlParts.squeezeSlashes (stripSegments sp.path) }
 
 /-- the first step of `parse_facebook_url` — facebook.py:311-324: the url to split, or `None`
 (`.ok none`) when the function returns `None` at once -/
@@ -469,7 +478,7 @@ def resolveUrl (url : Str) (allow_relative_urls : Bool) : Except Err (Option Str
   else
     (is_facebook_url url).map fun fb => if fb then some url else none
 
-/-- `parse_facebook_url(url, allow_relative_urls)` — facebook.py:309-497 -/
+/-- `parse_facebook_url(url, allow_relative_urls)` — facebook.py:309-499 -/
 def parse_facebook_url (url : Str) (allow_relative_urls : Bool := false) : Result :=
   match resolveUrl url allow_relative_urls with
   | .error e => .error e
@@ -489,7 +498,7 @@ def hasComments : Option Parsed → Bool
   | some (.video ..) => true
   | _ => false
 
-/-- facebook.py:503-509 -/
+/-- facebook.py:505-511 -/
 def has_facebook_comments (url : Str) (allow_relative_urls : Bool := false) : Except Err Bool :=
   match is_facebook_url url with
   | .error e => .error e
